@@ -12,7 +12,7 @@ LEVEL = "exploration"
 RULE = (
     "every pair of plane binary shapes within the slice bounds x every assignment of object leaves to species "
     "leaves x every cost vector of the slice's (plain-coherent) menu x {thl, exh} x {ALL, ANY}, plus generate_all "
-    "once per input; oracle = brute force over all |S|^internal mappings (refmodel.dtl). An (input, cost vector) "
+    "under five cost vectors (default, hgt=inf, zeros, incoherent) per input; oracle = brute force over all |S|^internal mappings (refmodel.dtl). An (input, cost vector) "
     "case is non-trivial when the optimum uses a transfer, or some species leaf hosts no object, or there are >= 2 "
     "optimal mappings, or the minimum differs from the cost of the LCA mapping; cases are distinct by construction "
     "(the enumeration never repeats an (input, vector) pair)."
@@ -83,8 +83,13 @@ def check_case(O, S, leafmap, costs, algo, policy, valid_summary=None):
     return None
 
 
-def check_generate_all(O, S, leafmap, valid_keys):
-    inp, onode, snode = A.build_input(O, S, leafmap, (0, 1, 1, 1, 1))
+# validity does not depend on prices: the enumerator is run under every vector of this menu (no coherence filter is
+# needed, nothing is optimised) and must yield the same complete set each time
+GENALL_MENU = [(0, 1, 1, 1, 1), (0, 1, dtl.INF, 1, 1), (0, 0, 0, 0, 1), (3, 0, 2, 1, 1), (1, 2, 0, 0, 1)]
+
+
+def check_generate_all(O, S, leafmap, valid_keys, costs=(0, 1, 1, 1, 1)):
+    inp, onode, snode = A.build_input(O, S, leafmap, costs)
     try:
         outs = list(generate_all(inp))
     except Exception as exc:
@@ -137,13 +142,16 @@ def run_shard(shard, tier, seed):
             summ.append((cnt["S"], cnt["D"], cnt["T"], loss, m))
         empty_species = len(set(leafmap.values())) < len(S.leaves)
         lca_m = dtl.lca_mapping(O, S, leafmap)
-        g = check_generate_all(O, S, leafmap, {tuple(sorted(m.items())) for m, _ in valid})
-        n_eval += 1
-        if g:
-            vtotal += 1
-            if len(viols) < 8:
-                viols.append({"property": "C01", "subcheck": g[0], "case": case_json(osh, ssh, leafmap),
-                              "detail": g[1]})
+        valid_keys = {tuple(sorted(m.items())) for m, _ in valid}
+        for gcosts in GENALL_MENU:
+            g = check_generate_all(O, S, leafmap, valid_keys, gcosts)
+            n_eval += 1
+            counters["generate_all_runs"] = counters.get("generate_all_runs", 0) + 1
+            if g:
+                vtotal += 1
+                if len(viols) < 8 and not any(v["subcheck"] == g[0] for v in viols):
+                    viols.append({"property": "C01", "subcheck": g[0], "case": case_json(osh, ssh, leafmap, gcosts),
+                                  "detail": g[1] + f" (costs {A.costs_to_json(gcosts)})"})
         for costs in menu:
             spe, dup, hgt, fl = costs[:4]
             best = dtl.INF
@@ -184,7 +192,7 @@ def replay(v):
     leafmap = {int(k): int(x) for k, x in case["leaf_object_species"]}
     if v.get("subcheck", "").startswith("genall") or "algorithm" not in case:
         valid = {tuple(sorted(m.items())) for m, _ in dtl.valid_mappings(O, S, leafmap)}
-        g = check_generate_all(O, S, leafmap, valid)
+        g = check_generate_all(O, S, leafmap, valid, A.costs_from_json(case["costs"]) if case.get("costs") else (0, 1, 1, 1, 1))
         return {"violated": bool(g), "detail": g[1] if g else None}
     costs = A.costs_from_json(case["costs"])
     bad = check_case(O, S, leafmap, costs, case["algorithm"], case["policy"])
